@@ -104,6 +104,7 @@ func (k *Kama[T]) Compute(closings <-chan T) <-chan T {
 
 	kama := make(chan T)
 
+	helper.VerifStage("KamaCore", 0, []any{closingsSplice[2], scs}, []any{kama})
 	go func() {
 		defer close(kama)
 		defer helper.Drain(scs)
